@@ -113,10 +113,28 @@ def lattice(nmax):
     return out
 
 
+QUERY = [None]
+
+
+def _library_filter():
+    from astropy.wcs import WCS
+    from toasty.samplers import WcsSampler
+
+    fw = WCS(naxis=2)
+    fw.wcs.ctype = ["RA---TAN", "DEC--TAN"]
+    fw.wcs.crval = [40.0, 10.0]
+    fw.wcs.cdelt = [-2.0, 2.0]
+    fw.wcs.crpix = [20.5, 20.5]
+    return WcsSampler(np.ones((40, 40), dtype=np.float32), fw).filter()
+
+
 def routes(job):
     """The other three routes agree with full enumeration / the reference."""
     from toasty import toast
     from toasty.pyramid import Pos
+
+    if QUERY[0] is None:
+        QUERY[0] = _library_filter()
 
     positions, first_planetary, full_depth = job
     part = Part()
@@ -152,8 +170,10 @@ def routes(job):
             bad("route-single/raises:%s" % type(e).__name__, repr(e), cfg)
             continue
         vs = tvec(s)
-        # a tile already handed out must not change when the OTHER coordinate system is used afterwards
+        # a tile already handed out must not change when the OTHER coordinate system is used afterwards, nor when
+        # it is shown to one of the library's tile filters (a pure query)
         try:
+            QUERY[0](s)
             toast.create_single_tile(Pos(n, x, y), coordsys=cs_of(not planetary))
             toast.toast_tile_for_point(min(n, 3), 0.3, 1.0, coordsys=cs_of(not planetary))
             for _t in toast.generate_tiles(1, coordsys=cs_of(not planetary)):
@@ -186,6 +206,13 @@ def routes(job):
         except Exception as e:
             bad("route-lookup/raises:%s" % type(e).__name__, repr(e), cfg)
             continue
+        try:
+            # the same point given with a negative longitude
+            pneg = toast.toast_tile_for_point(n, float(lat), float(lon) - 2 * np.pi, coordsys=cs)
+            if tuple(pneg.pos) != tuple(pt.pos):
+                bad("route-lookup/negative-longitude", "lookup at the tile's centre with lon - 2 pi returned %r, with lon %r" % (tuple(pneg.pos), tuple(pt.pos)), cfg)
+        except Exception as e:
+            bad("route-lookup/raises:%s" % type(e).__name__, repr(e), cfg)
         if tuple(pt.pos) != (n, x, y):
             bad("route-lookup/wrong-tile", "lookup at the tile's centre returned %r" % (tuple(pt.pos),), cfg)
         elif tg.angdist(tvec(pt), vs).max() > 1e-12 or bool(pt.increasing) != bool(s.increasing):
